@@ -145,7 +145,9 @@ def run(res):
         if r["rc"] != 0:
             tail = [e for e in r["events"] if e["ev"] in ("Timeout", "Drained")]
             res.violation("encode did not complete (rc=%s, %s): %s" % (r["rc"], tail[-1:], r["desc"]), log[-3000:],
-                          key={"kind": "incomplete", "hierarchical_levels": st.get("hierarchical_levels", 4)})
+                          key={"kind": "incomplete", "hierarchical_levels": st.get("hierarchical_levels", 4),
+                               "enc_mode_le_5": int(int(st.get("enc_mode", 8)) <= 5),
+                               "intra_period_odd": int(int(st.get("intra_period_length", -2)) > 0 and int(st.get("intra_period_length", -2)) % 2 == 1)})
             continue
         res.add("encodes_completed_clean")
         b.add("Session", stream.session_events(r), r["desc"])
